@@ -1163,10 +1163,6 @@ impl<K: EnrKey> Decodable for Enr<K> {
                     let ip6 = Ipv6Addr::decode(payload)?;
                     alloy_rlp::encode(ip6)
                 }
-                b"secp256k1" | b"ed25519" => {
-                    let keys = Header::decode_bytes(payload, false)?;
-                    alloy_rlp::encode(keys)
-                }
                 _ => {
                     let other_header = Header::decode(payload)?;
                     let value = &payload[..other_header.payload_length];
